@@ -773,4 +773,8 @@ func SortedKeys[M ~map[K]V, K comparable, V any](m M) []K {
 // ClockVirtual reports whether unmanaged callers inside an active execution (event bodies) see virtual time.
 //
 //go:norace
-func ClockVirtual() bool { return active }
+func ClockVirtual() bool { return active || ForceVirtualClock }
+
+// ForceVirtualClock makes vtime.Now answer the virtual clock (Epoch + Advance) in sequential harnesses too, so
+// that bytes derived from timestamps (file headers) are identical in every run.
+var ForceVirtualClock bool
